@@ -156,6 +156,7 @@ type Core struct {
 	ctxCancel       func()
 	confPath        string
 	conf            atomic.Pointer[conf.Conf]
+	nextConf        atomic.Pointer[conf.Conf]
 	supportsIPv6    bool
 	logger          *logger.Logger
 	externalCmdPool *externalcmd.Pool
@@ -341,6 +342,9 @@ outer:
 
 		case req := <-p.chAPIConfigGlobalPatch:
 			newConf, err := p.doAPIConfigGlobalPatch(req.conf)
+			if err == nil {
+				p.nextConf.Store(newConf)
+			}
 			req.res <- err
 
 			if err == nil {
@@ -353,6 +357,9 @@ outer:
 
 		case req := <-p.chAPIConfigPathDefaultsPatch:
 			newConf, err := p.doAPIConfigPathDefaultsPatch(req.conf)
+			if err == nil {
+				p.nextConf.Store(newConf)
+			}
 			req.res <- err
 
 			if err == nil {
@@ -365,6 +372,9 @@ outer:
 
 		case req := <-p.chAPIConfigPathAdd:
 			newConf, err := p.doAPIConfigPathAdd(req.name, req.conf)
+			if err == nil {
+				p.nextConf.Store(newConf)
+			}
 			req.res <- err
 
 			if err == nil {
@@ -377,6 +387,9 @@ outer:
 
 		case req := <-p.chAPIConfigPathPatch:
 			newConf, err := p.doAPIConfigPathPatch(req.name, req.conf)
+			if err == nil {
+				p.nextConf.Store(newConf)
+			}
 			req.res <- err
 
 			if err == nil {
@@ -389,6 +402,9 @@ outer:
 
 		case req := <-p.chAPIConfigPathReplace:
 			newConf, err := p.doAPIConfigPathReplace(req.name, req.conf)
+			if err == nil {
+				p.nextConf.Store(newConf)
+			}
 			req.res <- err
 
 			if err == nil {
@@ -401,6 +417,9 @@ outer:
 
 		case req := <-p.chAPIConfigPathDelete:
 			newConf, err := p.doAPIConfigPathDelete(req.name)
+			if err == nil {
+				p.nextConf.Store(newConf)
+			}
 			req.res <- err
 
 			if err == nil {
@@ -1278,6 +1297,7 @@ func (p *Core) reloadConf(newConf *conf.Conf) error {
 	p.closeResources(newConf)
 
 	p.conf.Store(newConf)
+	p.nextConf.Store(nil)
 
 	err := p.createResources(false)
 	if err != nil {
@@ -1293,6 +1313,11 @@ func (p *Core) reloadConf(newConf *conf.Conf) error {
 }
 
 func (p *Core) apiConfigSnapshot() *conf.Conf {
+	// an edit is acknowledged before it is applied:
+	// return the configuration that is being applied, if any.
+	if c := p.nextConf.Load(); c != nil {
+		return c
+	}
 	return p.conf.Load()
 }
 
